@@ -16,7 +16,7 @@ import json, os, subprocess, sys, shutil, re, concurrent.futures, glob
 
 ENV = dict(os.environ, GOFLAGS="-mod=mod", GOPROXY="off", GOSUMDB="off", GOTOOLCHAIN="local")
 ENV.pop("GOWORK", None)
-WT = "/tmp/seedcheck-wt"
+WT = "/tmp/seedcheck-wt" + os.environ.get("SHARD", "")
 
 
 def sh(cmd, cwd=None, timeout=1800, env=None):
@@ -30,7 +30,7 @@ def clean():
 
 def main():
     names = sys.argv[1:] or sorted(os.path.basename(d.rstrip("/")) for d in glob.glob("/verif/seeded/*/"))
-    if sh("git status --porcelain", "/repo")[1].strip():
+    if not os.environ.get("SHARD") and sh("git status --porcelain", "/repo")[1].strip():
         print("/repo is not clean")
         sys.exit(2)
     head = sh("git rev-parse --short HEAD", "/repo")[1].strip()
@@ -77,6 +77,9 @@ def main():
             meta["confirmed_on"] = res
             det = {}
             if ok:
+                import fcntl
+                lock = open("/tmp/seed-eval-repo.lock", "w")
+                fcntl.flock(lock, fcntl.LOCK_EX)
                 rc, out = sh(f"git apply {d}/patch.diff", "/repo")
                 try:
                     evdir = f"/tmp/seedcheck-ev-{name}"
@@ -97,6 +100,7 @@ def main():
                     shutil.rmtree(evdir, ignore_errors=True)
                 finally:
                     sh("git checkout -- .", "/repo")
+                    lock.close()
             caught = sorted(p for p, x in det.items() if x["exit"] == 1)
             errs = sorted(p for p, x in det.items() if x["exit"] not in (0, 1))
             if "at_import" not in meta:
@@ -113,7 +117,6 @@ def main():
             print(name, pid, status, "caught_by=", caught, rules, flush=True)
     finally:
         sh(f"git worktree remove --force {WT}", "/repo")
-        sh("git checkout -- .", "/repo")
     n = len([r for r in rows if r[2].startswith("ok")])
     c = len([r for r in rows if r[2].startswith("ok") and r[3]])
     t = len([r for r in rows if r[2].startswith("ok") and r[1] in r[3]])
